@@ -6,7 +6,8 @@ VALUE_OBLIGATIONS = ["nat.__int__", "nat.__float__", "int.__float__"]
 
 
 def run(ctx: Ctx) -> int:
-    ctx.crosshair([Job(H, fn, timeout=ctx.pick(60, 200)) for fn in ("h_try_coerce", "h_check_type_against", "h_kind_order")])
+    ctx.crosshair([Job(H, fn, timeout=ctx.pick(60, 200)) for fn in ("h_try_coerce", "h_check_type_against", "h_kind_order")]
+                  + [Job("harness/C16_programs.py", "h_program", timeout=ctx.pick(200, 600), name="h_program[expected x form x position through the real check()]")])
     from lib import e3_run
 
     e3_run.init([])
@@ -36,9 +37,11 @@ def run(ctx: Ctx) -> int:
     kinds = {k: (b[k].kind, b[k].op) for k in [("nat", "__int__"), ("nat", "__float__"), ("int", "__float__")]}
     ctx.notes.append(f"live bindings used by coercions: {kinds}")
     ctx.functions_encoded = ["checker/expr_checker.py: try_coerce_to, check_type_against (non-generic branch); tys/ty.py: NumericType.Kind ordering",
+                             "checker/expr_checker.py + stmt_checker.py: every position that checks an expression against an expected numeric type, incl. visit_ComptimeExpr and literals (through the real check())",
                              "guppylang/std/num.py: nat.__int__, nat.__float__, int.__float__ (live bindings, E3)"]
     ctx.bounds = {"type_pairs": "all 81 ordered pairs from a pool of 9 real types (3 numeric, 6 non-numeric)", "values": "all 64-bit patterns"}
-    ctx.outside_claim = ["where in a program check_type_against is invoked (assignment/argument/return/operand positions): covered by the E5 stage when built",
+    ctx.bounds["programs"] = "3 expected types x 15 expression forms (variables, literals, comptime values, operator results) x 4 positions (assignment, argument, return, operand) through the real check()"
+    ctx.outside_claim = ["the value a coerced comptime constant takes (C17 decides constants)",
                          "float targets for |value| where binary64 cannot represent it exactly: rounded to nearest (stated in the property)"]
     ctx.assumptions = ["recording stand-in for Context/Globals/CallableDef.check_call", "E3 semantics tables (see C04)"]
     return ctx.finish(
